@@ -244,8 +244,10 @@ impl Driver
     /// a fresh driver on a copy of this one's disk and clock (to run the same invocation under another schedule)
     pub fn fork(&self) -> Driver
     {
-        let (disk, mode, clock) = self.sys.with(|s| (s.disk.clone(), s.mode, s.clock));
-        Driver{sys : MemSys::from_disk(disk, mode, clock), record_snapshots : self.record_snapshots}
+        let (disk, mode, clock, read_chunk) = self.sys.with(|s| (s.disk.clone(), s.mode, s.clock, s.read_chunk));
+        let sys = MemSys::from_disk(disk, mode, clock);
+        sys.with(|s| s.read_chunk = read_chunk);
+        Driver{sys : sys, record_snapshots : self.record_snapshots}
     }
 
     /// apply a user operation (not build / clean)
